@@ -14,7 +14,7 @@ def run(tier, replay=None):
     ck = Check("C04", tier)
     binp = build_harness()
     ids = id_ranks(binp)
-    cfgs = ["MC_C04_quick.cfg", "MC_C04_portal.cfg"] if tier == "quick" else ["MC_C04_quick.cfg", "MC_C04_portal.cfg", "MC_C04_types.cfg"]
+    cfgs = ["MC_C04_quick.cfg", "MC_C04_portal.cfg", "MC_C04_types.cfg"] if tier == "quick" else ["MC_C04_quick.cfg", "MC_C04_portal.cfg", "MC_C04_types.cfg"]
     if replay:
         case = json.load(open(replay))["case"]
         cases_by_cfg = [("replay", [case["case"]] if "case" in case else [case])]
